@@ -491,9 +491,20 @@ func Reference(c Case) Expect {
 			e.R = ref.Result{Form: apd.Finite, Neg: ex.Neg, Coeff: ex.Num, Exp: ex.Exp}
 			if !ex.IsZero() {
 				adj := ref.AdjExp(ex)
-				if adj < int64(ctx.Emin) || adj > int64(ctx.Emax) {
+				if adj > int64(ctx.Emax) {
+					// above the range the exponent limit applies as it does after any rounding:
+					// the result overflows
+					c2 := ctx
+					c2.P = uint32(ref.NDigits(ex.Num))
+					if ex.Den.Cmp(big.NewInt(1)) == 0 && c2.P > 0 {
+						e.R = ref.Round(ex, c2)
+						e.Cond = e.R.Flags()
+						return
+					}
 					e.Defined = false
-					e.Note = "P=0 outside exponent range"
+				} else if adj < int64(ctx.Emin) {
+					e.Defined = false
+					e.Note = "P=0 below the exponent range"
 				}
 			}
 			return
